@@ -228,7 +228,9 @@ var membershipVariants = []string{"Membership", "MEMBERSHIP", "memberſhip", "me
 var viaVariants = []string{"Join_authorised_via_users_server", "JOIN_AUTHORISED_VIA_USERS_SERVER", "join_authoriſed_via_uſers_ſerver",
 	"join_authorised_via_users_Server", "Join_Authorised_Via_Users_Server"}
 
-var signerUsers = []string{"@alice:hs1", "@bob:hs2", "@carol:hs3:8448", "@dave:example.org", "@eve:1.2.3.4", "@f:hs1", "@g:xn--bcher-kva.example:443"}
+var signerUsers = []string{"@alice:hs1", "@bob:hs2", "@carol:hs3:8448", "@dave:example.org", "@eve:1.2.3.4", "@f:hs1", "@g:xn--bcher-kva.example:443",
+	// server names are compared as written: a name with capitals is another server than its lower-case form (seed C06-r4m1)
+	"@zoe:Example.ORG", "@h:Hs1"}
 var badUsers = []string{"", "@", "alice:hs1", "@alice", "@:hs1", "@alice:", "@alice:bad domain", "!alice:hs1", "@alice:hs1:notaport", "@a:h:1:2"}
 var otherServers = []string{"unrelated.org", "hs9", "hs1.evil", "HS1", "hs1:8448", "", "hs3"}
 
@@ -732,6 +734,18 @@ func genSigners(o *Out, tier string, r *Rng) {
 			}
 			for k := 0; k < r.Intn(3); k++ {
 				table = append(table, [2]string{Pick(r, otherServers), Pick(r, []string{"0", "1"})})
+			}
+			// the lower- / upper-case form of an asked name is an unrelated server: it answers the opposite
+			for j, s := range servers {
+				for _, cv := range []string{strings.ToLower(s), strings.ToUpper(s)} {
+					if cv != s && !asked[cv] {
+						b := "1"
+						if mask&(1<<uint(j)) != 0 {
+							b = "0"
+						}
+						table = append(table, [2]string{cv, b})
+					}
+				}
 			}
 			// shuffle so that the first-entry-wins rule is exercised with unrelated duplicates
 			dflt := r.Bool()
